@@ -15,6 +15,7 @@
 From Coq Require Import ZArith List Bool Lia.
 Import ListNotations.
 From TF Require Import Lib.GoInt Gen.Geometry Model.Recv Proofs.Recv Model.Send Proofs.Send Proofs.Geometry Proofs.Tree.
+From TF Require Model.Sidecar Model.Resume Proofs.ResumeFile.
 Open Scope Z_scope.
 
 Theorem C01_tree_chunks : forall src_tok src_len m res pr evs, Forall (wf_ev pr) evs ->
@@ -43,6 +44,23 @@ Theorem C01_chunks_tile_file : forall size cs, geom_dom size cs ->
   sum_lens size cs (Z.to_nat n) = size.
 Proof. exact chunks_tile_file. Qed.
 Print Assumptions C01_chunks_tile_file.
+
+(* ... and bytes: the positional writes of a file, in ANY order and with any
+   repetitions (the cross-stream arrival order, late duplicates), each putting the
+   source's bytes of chunk i at offset i * chunk size - if they cover every chunk
+   index, the file is the source, byte for byte and of the same length.
+   (C01_tree_chunks gives the coverage: the last write of every index carries the
+   source's payload; the file was truncated to the announced size at FileBegin.) *)
+Theorem C01_file_bytes_identical : forall cs src idxs f,
+  0 < cs -> TF.Model.Sidecar.zlen f = TF.Model.Sidecar.zlen src -> Forall (fun i => 0 <= i) idxs ->
+  (forall i, 0 <= i -> i * cs < TF.Model.Sidecar.zlen src -> In i idxs) ->
+  TF.Model.Resume.put_chunks cs src idxs f = src.
+Proof. exact TF.Proofs.ResumeFile.writes_cover_identical. Qed.
+Print Assumptions C01_file_bytes_identical.
+
+Example C01_file_bytes_example :
+  TF.Model.Resume.put_chunks 2 [1; 2; 3; 4; 5] [2; 0; 1; 0] [9; 9; 9; 9; 9] = [1; 2; 3; 4; 5].
+Proof. vm_compute. reflexivity. Qed.
 
 (* the sender's half of "both report success": every file was acknowledged *)
 Theorem C01_sender_success : forall files evs,
